@@ -1,6 +1,7 @@
 (* Props/C12.v — A job that fits is eventually scheduled (no lost wake-ups).
-   The wake-up itself (notify_all on the asyncio.Condition, every waiter re-running the loop body) is not
-   modelled: it is exercised on the real scheduler under a permuting event loop and judged at every quiescent
+   The wake-up protocol (lock, Condition.wait, notify_all) is modelled by the transition system of Sched/Wake.v
+   (C12_wake_refines_round_partial, C12_no_lost_wakeup_partial, at the end of this file); asyncio's own Lock/Condition
+   implementation is exercised on the real scheduler under a permuting event loop and judged at every quiescent
    point by the oracle.  Proved about one re-evaluation of a waiting request (any state, any stacked chains):
    it is granted exactly from locations that are valid now (C12_grant_only_valid); with exactly n >= 1 valid
    locations it IS granted whatever the policy answers (C12_granted_when_exactly_enough_partial); with fewer than n
@@ -15,7 +16,7 @@
    shape of [phases_seq]), the second being what asyncio's notify_all provides and what the oracle watches on real runs.
    Refuted: C12_rollback_blocks_refuted (known finding: a rolled-back job keeps the inner slot of its step). *)
 From Coq Require Import List Bool ZArith NArith Lia.
-From SF Require Import Base.Str Hardware.Model Hardware.Proofs Sched.Model Sched.Proofs Sched.History Sched.Quiesce Sched.Eventually Sched.Stacked Sched.StackedHist Sched.StackedQuiesce Sched.Witness Sched.Examples.
+From SF Require Import Base.Str Hardware.Model Hardware.Proofs Sched.Model Sched.Proofs Sched.History Sched.Quiesce Sched.Eventually Sched.Stacked Sched.StackedHist Sched.StackedQuiesce Sched.Wake Sched.Witness Sched.Examples.
 Import ListNotations.
 Local Open Scope string_scope. Local Open Scope list_scope.
 
@@ -217,6 +218,85 @@ Example C12_eventually_hypotheses_met :
   exists st st', run init ev_pre = Ok st /\ phases_seq st [ev_w] ev_H st' [] 2 /\ nact st' = 0%Z /\ nact st = 1%Z.
 Proof. split; [exact ev_conformant|exact ev_phases]. Qed.
 
+(* ---------------------------------------------------------------------------------------------------------
+   The waiting/waking protocol itself (Sched/Wake.v): a coroutine-level transition system of `async with wait_queue` /
+   `wait()` / `notify_all()` in _process_target and notify_status.  State = scheduler state + lock holder + lock FIFO +
+   the Condition's waiter FIFO + a program counter per task (PStart, PLockWait, PHolding, PWaiting, PDone); actions =
+   AArrive t (Lock.acquire: take the free lock or queue) and AStep t (the holder's critical section up to the release:
+   a request evaluates and returns or parks; a notifier updates, moves EVERY parked waiter to the lock FIFO, returns);
+   releasing hands the lock to the head of the lock FIFO.
+   C12_wake_refines_round_partial: an execution segment without notification is one of the wake rounds of
+   C12_quiescent_partial / C12_granted_on_release_partial ([wake_round]) over the requests it evaluates, in the order
+   in which they took the lock; each is evaluated exactly once in the segment, none of them was parked or finished at
+   its start, all are parked or finished at its end, and tasks parked or finished at the start do not move.  Since a
+   notification parks nobody and wakes everybody, the evaluations between two notifications are: every waiter woken by
+   the first one that obtained the lock before the second notifier did (FIFO; a notifier that queues for the lock while
+   woken waiters are still queued interleaves: the projection is then a PREFIX of the round, and the waiters not yet
+   re-evaluated are evaluated after the second notification, which wakes the others again), plus newly arrived requests.
+   C12_parked_not_grantable / C12_no_lost_wakeup_partial: in every reachable state, a request parked in the waiter FIFO
+   was evaluated after the last notification and, if it was short of valid locations then, it still is in the current
+   scheduler state (composition with C12_quiescent on the flat domain: the projected history [gpre c ++ ground c] must be
+   conformant); in a quiescent state (no task inside the protocol) every issued, ungranted request is parked, nobody
+   holds or queues for the lock (C12_quiescent_lock_free): no waiter could be allocated.
+   "partial", code paths OUTSIDE the system: an exception escaping a critical section (in notify_status it skips
+   notify_all — the known multi-location release finding; [cstep] has no successor when [notify]/[try_waiter] raises);
+   `retry_delay` timers (a timeout wakes a waiter without notification: only adds evaluations); cancellation of a parked
+   task; several targets per request (one task per target sharing JobContext.scheduled); asyncio's own implementation of
+   Lock/Condition (FIFO hand-over is assumed as documented; the permuting-loop runs exercise other wake orders, for
+   which nothing in the proofs depends on the order).  Composition with C12_quiescent is on the flat domain. *)
+Theorem C12_wake_refines_round_partial : forall prog l c c',
+  QInv c -> execs prog c l = Some c' -> no_notify prog l ->
+  (exists g, wake_round (sched c) (map (req_of prog) (evals l)) = Ok (sched c', g)) /\
+  NoDup (evals l) /\
+  (forall t, In t (evals l) -> settled (pcs c t) = false /\ settled (pcs c' t) = true) /\
+  (forall k, settled (pcs c k) = true -> pcs c' k = pcs c k) /\
+  ground c' = ground c ++ map (fun t => ev_of (req_of prog t)) (evals l).
+Proof. exact segment_is_round. Qed.
+
+(* the queue discipline and the protocol invariant hold in every reachable state *)
+Theorem C12_wake_invariants : forall prog l c,
+  execs prog c0 l = Some c -> QInv c /\ WInv prog c.
+Proof.
+  intros prog l c H. split; [exact (qinv_execs prog l c0 c qinv0 H)|exact (winv_execs prog l c0 c (winv0 prog) H)].
+Qed.
+
+Theorem C12_parked_not_grantable : forall prog locs,
+  (forall l1 l2, In l1 locs -> In l2 locs -> lv_name l1 = lv_name l2 -> l1 = l2) ->
+  (forall l cap, In l locs -> lv_cap l = Some cap -> wfr cap /\ In "/" (mounts cap)) ->
+  forall l c t w,
+  execs prog c0 l = Some c -> conformant locs init (gpre c ++ ground c) ->
+  pcs c t = PWaiting -> prog t = KReq w ->
+  exists vn, (exists pre post s_i, ground c = pre ++ ev_of w :: post /\ run (gbase c) pre = Ok s_i /\
+                                  try_waiter s_i w = Ok (s_i, vn, false)) /\
+    ((length vn < w_n w)%nat -> forall v', valid_locations (sched c) (w_reqs w) (w_job w) (w_cands w) = Ok v' ->
+       (length v' < w_n w)%nat /\ try_waiter (sched c) w = Ok (sched c, map chain_name v', false)).
+Proof. exact parked_not_grantable. Qed.
+
+Theorem C12_no_lost_wakeup_partial : forall prog locs,
+  (forall l1 l2, In l1 locs -> In l2 locs -> lv_name l1 = lv_name l2 -> l1 = l2) ->
+  (forall l cap, In l locs -> lv_cap l = Some cap -> wfr cap /\ In "/" (mounts cap)) ->
+  forall l c,
+  execs prog c0 l = Some c -> conformant locs init (gpre c ++ ground c) -> quiescent c ->
+  forall t w, prog t = KReq w -> pcs c t <> PStart -> pcs c t <> PDone ->
+  pcs c t = PWaiting /\ In t (waitq c) /\
+  exists vn, (exists pre post s_i, ground c = pre ++ ev_of w :: post /\ run (gbase c) pre = Ok s_i /\
+                                  try_waiter s_i w = Ok (s_i, vn, false)) /\
+    ((length vn < w_n w)%nat -> forall v', valid_locations (sched c) (w_reqs w) (w_job w) (w_cands w) = Ok v' ->
+       (length v' < w_n w)%nat /\ try_waiter (sched c) w = Ok (sched c, map chain_name v', false)).
+Proof. exact no_lost_wakeup. Qed.
+
+Theorem C12_quiescent_lock_free : forall prog l c,
+  execs prog c0 l = Some c -> quiescent c -> holder c = None /\ lockq c = [].
+Proof. exact quiescent_lock_free. Qed.
+
+(* hypotheses met: /s/0 granted; /s/9 (9 cores on a 4-core location) parks; /s/0 COMPLETED wakes it; it re-evaluates and
+   parks again; the state is quiescent and the projected history is conformant *)
+Example C12_no_lost_wakeup_hypotheses_met :
+  conformant hw_locs init wk_hist /\
+  exists c, execs wk_prog c0 wk_run = Some c /\ quiescent c /\ pcs c 1%nat = PWaiting /\ waitq c = [1%nat] /\
+            gpre c ++ ground c = wk_hist.
+Proof. split; [exact wk_conformant|exact wk_execution]. Qed.
+
 (* known finding: after ROLLBACK of /s0/1 nothing is fireable or running, yet /s0/0.9 finds no valid location *)
 Theorem C12_rollback_blocks_refuted :
   exists st, run init rollback_history = Ok st /\ no_active (Ok st) = true /\
@@ -242,4 +322,9 @@ Print Assumptions C12_granted_are_waiters.
 Print Assumptions C12_phases_measure.
 Print Assumptions C12_eventually_partial.
 Print Assumptions C12_idle_fits_valid.
+Print Assumptions C12_wake_refines_round_partial.
+Print Assumptions C12_wake_invariants.
+Print Assumptions C12_parked_not_grantable.
+Print Assumptions C12_no_lost_wakeup_partial.
+Print Assumptions C12_quiescent_lock_free.
 Print Assumptions C12_rollback_blocks_refuted.
